@@ -114,7 +114,7 @@ func genC19(t *rapid.T) c19Case {
 		ServerSecret: genSecret(t, "server_secret"),
 		Type:         rapid.SampledFrom([]byte{1, 2, 3}).Draw(t, "type"),
 		Minor:        rapid.SampledFrom([]byte{0, 1}).Draw(t, "minor"),
-		Seq:          byte(2*rapid.IntRange(0, 126).Draw(t, "seqhalf") + 1),
+		Seq:          byte(2*rapid.OneOf(rapid.IntRange(0, 127), rapid.SampledFrom([]int{0, 1, 126, 127})).Draw(t, "seqhalf") + 1), // 1..255
 		Flags:        rapid.SampledFrom([]byte{0, 0, 0, 4, 1, 5}).Draw(t, "flags"),
 		Session:      genSession(t),
 	}
